@@ -13,6 +13,7 @@ import (
 	"context"
 	"errors"
 	"fmt"
+	"io"
 	"runtime"
 	"strings"
 	"sync"
@@ -64,14 +65,24 @@ type stUnder struct {
 	r   *stRec
 	ctx context.Context
 	hdr metadata.MD
+	// failFirstSend: the first SendMsg on the (successfully created) stream fails
+	failFirstSend bool
+	sends         int
 }
 
 func (f *stUnder) Header() (metadata.MD, error) { f.r.add("u.Header", nil); return f.hdr, nil }
 func (f *stUnder) Trailer() metadata.MD         { f.r.add("u.Trailer", nil); return f.hdr }
 func (f *stUnder) CloseSend() error             { f.r.add("u.CloseSend", nil); return nil }
 func (f *stUnder) Context() context.Context     { f.r.add("u.Context", nil); return f.ctx }
-func (f *stUnder) SendMsg(m interface{}) error  { f.r.add("u.SendMsg", m); return nil }
-func (f *stUnder) RecvMsg(m interface{}) error  { f.r.add("u.RecvMsg", m); return nil }
+func (f *stUnder) SendMsg(m interface{}) error {
+	f.r.add("u.SendMsg", m)
+	f.sends++
+	if f.failFirstSend && f.sends == 1 {
+		return io.EOF
+	}
+	return nil
+}
+func (f *stUnder) RecvMsg(m interface{}) error { f.r.add("u.RecvMsg", m); return nil }
 
 type stUserKey struct{}
 
@@ -85,10 +96,12 @@ type stScenario struct {
 	nRecv      int
 	lateRecv   bool // a receive issued only after everything else
 	neverSends bool
+	// firstSendErr: creation succeeds but the first send on the new stream returns an error
+	firstSendErr bool
 }
 
 func (sc stScenario) String() string {
-	return fmt.Sprintf("recvFirst=%v creation=%s cancel=%s bystander=%s@%s sends=%d recvs=%d lateRecv=%v neverSends=%v", sc.recvFirst, sc.creation, sc.cancel, sc.bystander, sc.byPoint, sc.nSend, sc.nRecv, sc.lateRecv, sc.neverSends)
+	return fmt.Sprintf("recvFirst=%v creation=%s cancel=%s bystander=%s@%s sends=%d recvs=%d lateRecv=%v neverSends=%v firstSendErr=%v", sc.recvFirst, sc.creation, sc.cancel, sc.bystander, sc.byPoint, sc.nSend, sc.nRecv, sc.lateRecv, sc.neverSends, sc.firstSendErr)
 }
 
 type stRun struct {
@@ -190,7 +203,7 @@ func stRunScenario(sc stScenario, idx int64) *stRun {
 			rec.add("create.err", creationErr)
 			return nil, creationErr
 		}
-		under = &stUnder{r: rec, ctx: sctx, hdr: metadata.Pairs("k", "v")}
+		under = &stUnder{r: rec, ctx: sctx, hdr: metadata.Pairs("k", "v"), failFirstSend: sc.firstSendErr}
 		rec.add("create.ok", nil)
 		return under, nil
 	}
@@ -526,8 +539,15 @@ func stRunScenario(sc stScenario, idx int64) *stRun {
 	// sends: those that returned nil reached the stream unchanged, in order
 	var okSent []interface{}
 	for i := range msgs {
-		if sendErrs[i] == nil {
+		if sendErrs[i] == nil || (sc.firstSendErr && i == 0 && sendErrs[i] == io.EOF) {
 			okSent = append(okSent, msgs[i])
+		}
+	}
+	if sc.firstSendErr && createOKs == 1 {
+		h.hit("C12.first-send-error-no-second-stream")
+		if sendErrs[0] != io.EOF {
+			h.fail("C12.sends", "first-send-error", "the underlying stream's first SendMsg failed with io.EOF, the wrapper returned %v", sendErrs[0])
+			return h
 		}
 	}
 	h.hit("C12.sends-in-order")
@@ -844,6 +864,15 @@ func stAllScenarios() []stScenario {
 			}
 		}
 	}
+	// creation succeeds, the first send on the new stream fails, further sends follow
+	for _, recvFirst := range []bool{false, true} {
+		for _, nr := range []int{0, 1} {
+			if recvFirst && nr == 0 {
+				continue
+			}
+			r = append(r, stScenario{recvFirst: recvFirst, creation: "ok", cancel: "none", bystander: "none", byPoint: "before-send", nSend: 3, nRecv: nr, lateRecv: true, firstSendErr: true})
+		}
+	}
 	// the receiver waits and no SendMsg ever comes
 	for _, by := range []string{"none", "Header"} {
 		r = append(r, stScenario{recvFirst: true, creation: "ok", cancel: "none", bystander: by, byPoint: "before-send", nSend: 1, nRecv: 1, neverSends: true})
@@ -903,6 +932,15 @@ func TestVerifStream(t *testing.T) {
 		if h.viol != nil {
 			v := *h.viol
 			v.Log = h.log
+			if env.Prop == "C05" {
+				// C05 run of the stream engine: only panics are C05's business
+				if v.Rule != "C12.panic" {
+					out.addExtra("foreign:"+v.Sig, 1)
+					continue
+				}
+				v.Rule = "C05.panic"
+				v.Sig = "C05.panic:" + strings.TrimPrefix(v.Sig, "C12.panic:")
+			}
 			out.violation(v)
 			if env.Replay >= 0 {
 				t.Logf("REPLAY case %d: %s: %s\n  %s", idx, v.Sig, v.Detail, strings.Join(h.log, "\n  "))
